@@ -54,7 +54,7 @@ def eval_program(arg) -> dict:
             if not prog.enc.get('multiclient'):
                 prog.enc['provides'] = {'sts': 'NONE', 'mts': 'ALL'}
             out['counts']['programs_with_a_port_named_like_a_shell_part'] = 1
-    if stream % 4 in (2, 3):
+    if stream % 4 in (0, 2):
         # an event parameter named like a parameter of the shell's own constructor (`locator`
         # with imported, `prototypeLocator` with created facilities, `encapsuleeInstanceName`):
         # ordinary identifiers for a Dezyne model
